@@ -547,7 +547,7 @@ func main() {
 	// the peer sends a burst and goes away at once while the application handler is slower than the peer: what was
 	// received completely before the end of the stream is still given to the handler
 	nbc := c.Pick(72, 1200)
-	var lostConns, burstConns int64
+	var lostConns, burstConns, maxLate int64
 	var lostExample atomic.Value
 	vk.Parallel(nbc, runtime.NumCPU(), func(i int) {
 		r := c.Rand("c04-burst-close", int64(i))
@@ -594,7 +594,17 @@ func main() {
 		conn.Feed(stream)
 		conn.FeedEOF()
 		waitFor(func() bool { cl, _ := conn.Closed(); return cl }, 4*time.Second)
-		time.Sleep(time.Duration(nmsg*4) * time.Millisecond)
+		// The socket is closed as soon as the reader has seen the end of the stream; the handler still needs its 3 ms per
+		// message for what was queued. "Delivered" is decided by arrival, not by a deadline: wait (generously) until
+		// everything has arrived; only what has not arrived 3 s after the end of the connection counts as lost.
+		_, closedAt := conn.Closed()
+		all := func() bool { mu.Lock(); defer mu.Unlock(); return len(got) >= len(sent) }
+		if waitFor(all, 3*time.Second) {
+			if late := time.Since(closedAt); int64(late) > atomic.LoadInt64(&maxLate) {
+				atomic.StoreInt64(&maxLate, int64(late))
+			}
+		}
+		time.Sleep(5 * time.Millisecond) // anything delivered twice would show up now
 		mu.Lock()
 		g2 := append([][]byte(nil), got...)
 		mu.Unlock()
@@ -614,6 +624,7 @@ func main() {
 		}
 	})
 	c.Set("burst_then_close_connections", burstConns)
+	c.Set("burst_then_close_max_ms_from_socket_close_to_last_delivery", float64(maxLate)/1e6)
 	c.Set("burst_then_close_connections_that_lost_their_tail", lostConns)
 	_ = lostExample
 
